@@ -34,6 +34,7 @@ MAP = [
     ("C33", r"check_types_exists:Interface:implements", "d483a95"),
     ("C35", r"get-without-mutation-gate:", "0124b3a"),
     ("C03", r"path-overwritten:", "925689f"),
+    ("C03", r"unstamped-error:Interface:resolve_field", "9453461"),
     ("C33", r"own-arguments-never-enumerated", "66fe59a"),
     ("C33", r"missing-nullable-argument-accepted", "87b832a"),
 ]
